@@ -256,6 +256,66 @@ func genModel(repo, work string, overlay map[string]string) (string, error) {
 		fmt.Fprintf(&sb, "\t\t\tSetElem: func(f *FilterType, e any) { f.%s = e.(*%s) },\n", g.ElemFilterField, g.Elem)
 		sb.WriteString("\t\t},\n")
 	}
+	sb.WriteString("\t}\n")
+	// ---- every function that has a CmdType field
+	cmdSt := pkg.Scope().Lookup("CmdType").Type().Underlying().(*types.Struct)
+	filterSt := pkg.Scope().Lookup("FilterType").Type().Underlying().(*types.Struct)
+	hasFilterField := func(typeName string) bool {
+		for i := 0; i < filterSt.NumFields(); i++ {
+			if p, ok := filterSt.Field(i).Type().(*types.Pointer); ok {
+				if nm, ok := p.Elem().(*types.Named); ok && nm.Obj().Name() == typeName {
+					return true
+				}
+			}
+		}
+		return false
+	}
+	listOf := map[string]*genList{}
+	for _, g := range lists {
+		listOf[g.List] = g
+	}
+	type fn struct{ function, field, payload, sel, elem string }
+	var fns []fn
+	elemUsers := map[string][]string{}
+	for i := 0; i < cmdSt.NumFields(); i++ {
+		f := cmdSt.Field(i)
+		fct := eebusTag(cmdSt.Tag(i))["fct"]
+		p, ok := f.Type().(*types.Pointer)
+		if !ok || fct == "" {
+			continue
+		}
+		nm, ok := p.Elem().(*types.Named)
+		if !ok {
+			continue
+		}
+		x := fn{function: fct, field: f.Name(), payload: nm.Obj().Name()}
+		sn := strings.TrimSuffix(x.payload, "Type") + "SelectorsType"
+		if pkg.Scope().Lookup(sn) != nil && hasFilterField(sn) {
+			x.sel = sn
+		}
+		en := strings.TrimSuffix(x.payload, "Type") + "ElementsType"
+		if g := listOf[x.payload]; g != nil && g.ItemIsStruct {
+			en = strings.TrimSuffix(g.Item, "Type") + "ElementsType"
+		}
+		if pkg.Scope().Lookup(en) != nil && hasFilterField(en) {
+			x.elem = en
+			elemUsers[en] = append(elemUsers[en], fct)
+		}
+		fns = append(fns, x)
+	}
+	sb.WriteString("\tvhFuncs = []*vhFunc{\n")
+	for _, x := range fns {
+		fmt.Fprintf(&sb, "\t\t{Function: %q, CmdField: %q, Payload: %q,\n\t\t\tNewPayload: func() any { return &%s{} },\n", x.function, x.field, x.payload, x.payload)
+		if x.sel != "" {
+			fmt.Fprintf(&sb, "\t\t\tNewSel: func() any { return &%s{} },\n", x.sel)
+		}
+		if x.elem != "" {
+			// an elements type shared by several functions has a single filter field: the round trip is required for the list function only
+			shared := len(elemUsers[x.elem]) > 1 && !strings.HasSuffix(x.function, "ListData")
+			fmt.Fprintf(&sb, "\t\t\tNewElem: func() any { return &%s{} }, ElemShared: %v,\n", x.elem, shared)
+		}
+		sb.WriteString("\t\t},\n")
+	}
 	sb.WriteString("\t}\n}\n")
 	if n == 0 {
 		return "", fmt.Errorf("generator found no usable model.Updater type: the type-structure convention no longer holds")
